@@ -275,7 +275,7 @@ def ref_match(rf, txn, rows, mode='first_match', transformed=False):
 # ======================================================================================== generator
 CATS = [('Food', 'Grocery'), ('Food', 'Delivery'), ('Subscriptions', 'Streaming'), ('Transport', ''), ('Shopping', 'Online'),
         ('Bills', 'Rent'), ('Income', 'Salary'), ('Travel', 'Air'), ('Health', '')]
-STATIC_TAGS = ['recurring', 'Business', 'LARGE', 'income', 'Transfer', 'needs review', 'q1', 'café', ' padded ', 'ref #1', 'acct # 2',
+STATIC_TAGS = ['recurring', 'Business', 'LARGE', 'income', 'Transfer', 'needs review', 'q1', 'café', ' padded ', 'ref #1', 'acct # 2', "kid's", '5" nails',
                # letters that lower() keeps and a case FOLD rewrites (tags are lower-cased, not folded)
                'Fu\u00dfweg', '\u039f\u0394\u039f\u03a3', 'Wa\u017f\u017fer', '\u00b5Bank']
 DYN_TAGS = ['{field.memo}', '{source}', '{extract("REF:(\\\\d+)")}', '{extract("REF:(\\\\d{1,3})")}', '{extract("#(\\\\d{2})")}', '{label}', '{split("-", 0)}', '{field.code}', '{txn.location}',
